@@ -596,6 +596,7 @@ pub struct AFacts {
     pub resets_in: u64,
     /// Resets delivered by the source stream although at most `capacity` messages were waiting
     pub resets_without_lag: u64,
+    pub pops_on_empty_skipped_under_c15: u64,
     pub quiescent_checks: u64,
     pub param_changes: u64,
     pub param_consumed: u64,
@@ -908,6 +909,12 @@ impl<'a> Oracle<'a> {
                 if *n <= self.replicas[k].len() { self.replicas[k][*n..].iter().map(|i| i.id).collect() } else { vec![] };
         }
         if let Err(e) = d.checked_apply(&mut self.replicas[k]) {
+            // (while C15's check runs, a pop on an empty view is not C15's business - it is what `VectorDiff::apply`
+            // makes a no-op of -; the history goes on so that the bound is judged after the diffs that follow)
+            if self.prop == "C15" && k >= 1 && matches!(d, D::PopFront | D::PopBack) {
+                self.facts.pops_on_empty_skipped_under_c15 += 1;
+                return Ok(());
+            }
             return if k == 0 {
                 self.div("C05|C06", format!("source diff {} is inapplicable: {e}", d.show()))
             } else {
